@@ -95,6 +95,12 @@ func (w *World) SetHigh(vb int, h uint64) {
 	w.mu.Unlock()
 }
 
+func (w *World) SetFo(vb int, uuid uint64) {
+	w.mu.Lock()
+	w.FoLog[vb] = append([]gocbcore.FailoverEntry{{VbUUID: gocbcore.VbUUID(uuid), SeqNo: 0}}, w.FoLog[vb]...)
+	w.mu.Unlock()
+}
+
 func (w *World) StoreEv() []any {
 	w.mu.Lock()
 	defer w.mu.Unlock()
@@ -153,10 +159,10 @@ func (c *Client) GetVBucketSeqNos(bool) (*wrapper.ConcurrentSwissMap[uint16, uin
 	c.r.W.mu.Unlock()
 	latest := c.r.Cfg.Checkpoint.AutoReset == "latest"
 	if err, ok := v.(error); ok && err != nil {
-		c.r.S.Emit(Ev{"ev": "SeqNos", "ok": false, "high": hi, "latest": latest})
+		c.r.S.Emit(Ev{"ev": "SeqNos", "ok": false, "high": hi, "latest": latest, "partial": c.r.Partial})
 		return nil, err
 	}
-	c.r.S.Emit(Ev{"ev": "SeqNos", "ok": true, "high": hi, "latest": latest})
+	c.r.S.Emit(Ev{"ev": "SeqNos", "ok": true, "high": hi, "latest": latest, "partial": c.r.Partial})
 	return m, nil
 }
 
@@ -279,6 +285,24 @@ func (m *Meta) Write(t string, vb uint16) bool {
 	return true
 }
 
+// DirtyOf lists the vBuckets the in-flight save of thread t would write.
+func (m *Meta) DirtyOf(t string) []uint16 {
+	m.mu.Lock()
+	defer m.mu.Unlock()
+	a := m.inflight[t]
+	if a == nil {
+		return nil
+	}
+	var l []uint16
+	for vb, d := range a.dirty {
+		if d && a.state[vb] != nil {
+			l = append(l, vb)
+		}
+	}
+	sort.Slice(l, func(i, j int) bool { return l[i] < l[j] })
+	return l
+}
+
 func (m *Meta) Load(vbs []uint16, b string) (*wrapper.ConcurrentSwissMap[uint16, *models.CheckpointDocument], bool, error) {
 	l := make([]int, 0, len(vbs))
 	for _, v := range vbs {
@@ -293,8 +317,16 @@ func (m *Meta) Load(vbs []uint16, b string) (*wrapper.ConcurrentSwissMap[uint16,
 	}
 	res := wrapper.CreateConcurrentSwissMap[uint16, *models.CheckpointDocument](16)
 	ex := false
+	partial, _ := v.(string)
 	m.r.W.mu.Lock()
 	defer m.r.W.mu.Unlock()
+	any := false
+	for _, vb := range vbs {
+		if _, ok := m.r.W.Store[vb]; ok {
+			any = true
+		}
+	}
+	m.r.Partial = partial == "partial"
 	for _, vb := range vbs {
 		if d, ok := m.r.W.Store[vb]; ok {
 			cp := *d.Checkpoint
@@ -302,7 +334,8 @@ func (m *Meta) Load(vbs []uint16, b string) (*wrapper.ConcurrentSwissMap[uint16,
 			cp.Snapshot = &sn
 			res.Store(vb, &models.CheckpointDocument{Checkpoint: &cp, BucketUUID: d.BucketUUID})
 			ex = true
-		} else {
+		} else if !(partial == "partial" && any) {
+			// (a file-like backend that has a file returns only what is in it)
 			res.Store(vb, models.NewEmptyCheckpointDocument(b))
 		}
 	}
@@ -443,6 +476,7 @@ type Rig struct {
 	StopCh        chan struct{}
 	Timers        []*time.Timer // every rebalance timer the stream created, in order
 	StoppedSeen   bool
+	Partial       bool // the last metadata.Load answered like a file backend
 	CollectionIDs map[uint32]string
 	Opt           Options
 }
